@@ -88,6 +88,7 @@ package dagsync
 // C01 (decision tables), C04 (failure changes nothing), C15 (explicit-sync protocol), C03 (no sync after a rejected head)
 
 //@ protects Subscriber.expSyncMutex: expSyncClosed
+//@ protects Subscriber.handlersMutex: handlers
 
 // Syncer is implemented by ipnisync.Syncer (whose GetHead contract is proved there).
 //@ iface Syncer.GetHead
@@ -110,6 +111,22 @@ package dagsync
 //@   requires h.subscriber.scopedBlockHook != nil && h.subscriber.scopedBlockHookMutex != nil && !held(h.subscriber.scopedBlockHookMutex)
 //@   modifies mapof(h.subscriber.scopedBlockHook)
 //@   ensures result1 != nil ==> result0 == 0
+// C08: every Sync call of this handler runs with its sync mutex held and its block hook installed;
+// the hook slot is empty again and the mutex released on every return.
+//@   at call Sync#1: assert held(h.syncMutex) && has(h.subscriber.scopedBlockHook, h.peerID) && arg2 == nextCid && arg3 == sel
+//@   at call Sync#2: assert held(h.syncMutex) && has(h.subscriber.scopedBlockHook, h.peerID) && arg2 == *segSync0 && arg3 == segmentSel
+//@   ensures-local !has(h.subscriber.scopedBlockHook, h.peerID) && !held(h.syncMutex)
+// C01, segmentation arithmetic (any segment size): each segment asks for nextDepth = min(segdl, D - depthSoFar)
+// blocks where D is the depth of the original selector (unbounded if it has none); the segments' depths
+// sum up to depthSoFar and never exceed D; the loop stops once D is reached, at the stop CID, or when
+// the hook names no further block.
+//@   ghost segSync0 := zero("*cid.Cid")
+//@   at call reset#1: ghost segSync0 := segSync.nextSyncCid
+//@   at call withRecursionLimit#1: assert arg0 == sel && arg1.mode == 1 && arg1.depth == nextDepth
+//@   loop 1: invariant syncBySegment && segdl >= 1 && 1 <= nextDepth && nextDepth <= segdl && 0 <= depthSoFar
+//@   loop 1: invariant origLimit.mode == 1 ==> depthSoFar < origLimit.depth && nextDepth == min(segdl, origLimit.depth - depthSoFar) && origLimit.depth > segdl
+//@   loop 1: invariant origLimit.mode != 1 ==> nextDepth == segdl
+//@   loop 1: invariant depthSoFar <= 4611686018427387904
 //@   loop 1: invariant segSync != nil && segSync.nextSyncCid != nil && held(h.syncMutex) && !held(h.subscriber.scopedBlockHookMutex) && h.subscriber.scopedBlockHook != nil
 
 //@ func (*handler).makeSyncer
@@ -129,6 +146,12 @@ package dagsync
 //@ func (*Subscriber).GetLatestSync
 //@   nobody
 //@   pure
+
+//@ func (*segmentedSync).reset
+//@   property C01
+//@   requires ss != nil
+//@   modifies ss.nextSyncCid, ss.err
+//@   ensures ss.nextSyncCid == nil && ss.err == nil
 
 // The publisher identity is non-empty on success (it becomes the syncer's peer ID: C03).
 //@ func removeIDFromAddrs
